@@ -800,7 +800,9 @@ loop:
 					continue
 				}
 
-				if fr.Stream() < sc.lastID {
+				// Not above the newest stream and not in the table: it has been
+				// used. That holds for lastID itself once it has left closedStrms.
+				if fr.Stream() <= sc.lastID {
 					sc.writeGoAway(fr.Stream(), ProtocolError, "stream ID is lower than the latest")
 
 					if canCloseAfterGoAway() {
